@@ -35,7 +35,7 @@ RULE = (
 ASSUMPTIONS = ["exception classes: ValueError, KeyError, ZeroDivisionError, custom Exception, a foreign EvaluationError, CacheGetFailure, KeyNotFoundError"]
 FLOORS = {"fault_runs": (1500, 40000), "faults_fired": (1200, 30000), "boundary_failures_checked": (1500, 30000),
           "chains_reaching_injected": (700, 15000), "stores_verified": (1500, 40000), "post_failure_steps_compared": (1500, 40000),
-          "missing_then_supplied": (150, 3000)}
+          "missing_then_supplied": (150, 3000), "dangling_reference_cases": (1200, 25000), "dangling_missing_key_reports": (150, 3000)}
 COVER = {"fault_kinds": ["body", "callback", "effect", "pred", "bindfn", "step", "factory", "dompred", "fn"],
          "fault_classes": ["ValueError", "KeyError", "ZeroDivisionError", "InjectedFault", "EvaluationError", "CacheGetFailure"]}
 SHARDS_QUICK = 4
@@ -255,8 +255,57 @@ def plans_for(ctx, r, pids, exhaustive):
     return out
 
 
+def dangling_family(ctx, r):
+    """Failures that are NOT missing options of the graph itself but dangling template references inside present
+    values, on graphs without any cache (caching computes keys() first and would mask a wrong report): the
+    failure must surface, as a missing-key error naming the key that is really absent."""
+    from ..ref import Ref, RefErr
+
+    program = program_for(r, r.choice([1, 2]), features={"cached": False, "domains": False, "allopts": False}, n_datasets=r.choice([0, 1, 2]))
+    for d in program["datasets"].values():
+        d["cache"] = "nocache"
+    G = build(program)
+    for _ in range(4):
+        o = U.random_options(r, p_present=0.8, templated=0.35)
+        ref = Ref(program)
+        cands = None
+        try:
+            exp = ("ok", None)
+            ref.eval(program["root"], o)
+        except RefErr as e:
+            exp = ("err", e.kind)
+            cands = e.candidates
+        except RecursionError:
+            continue
+        try:
+            G.root.evaluate(copy.deepcopy(o))
+            got = ("ok", None)
+            err = None
+        except BaseException as e:  # noqa: BLE001
+            err = e
+            got = ("err", type(e).__name__)
+        ctx.evaluations += 1
+        ctx.count("dangling_reference_cases")
+        W = {"program": program, "history": [o], "plan": {}, "source": "dangling"}
+        if (got[0] == "err") != (exp[0] == "err"):
+            ctx.violation("failure-swallowed-or-invented", f"no-cache graph on {short(o)}: evaluate() {short(got)} but the eager reference semantics gives {short(exp)}", W)
+            return
+        if err is not None and exp[1] == "KeyNotFoundError" and "coalesce" not in kinds_of(program):
+            if not isinstance(err, EvaluationError) or err.source is not G.root:
+                ctx.violation("wrong-source", f"{type(err).__name__} with source {getattr(err, 'source', None)!r}", W)
+                return
+            knf = [x for x in chain(err) if isinstance(x, KeyNotFoundError)]
+            ctx.count("dangling_missing_key_reports")
+            if not knf or knf[-1].key not in cands:
+                ctx.violation("missing-key-misreported", f"failure names {knf[-1].key if knf else None!r}; the keys that are really absent: {sorted(cands)} in {short(o)}", W)
+                return
+            ctx.nontrivial(spec_hash(["dangling", program, o]))
+
+
 def run(ctx):
     rng = ctx.rng
+    for i in range(ctx.n(400, 8000)):
+        dangling_family(ctx, case_rng(ctx, 5_000_000 + i))
     dicts = [{}, {"A": 1}, {"A": 1, "B": "b", "D": "x"}, {"A": 2, "B": "b", "D": "y", "S": {"X": 1, "Y": 2}, "L": [1, 2]}, {"A": 1}, {"D": "x", "C": 3, "E": "y"},
              {"A": 1, "B": "b", "D": "x"}]
     for i, p in enumerate(directed.programs()):
